@@ -174,17 +174,31 @@ def note_words(task):
     """task = (sub, old_words iterable spec)"""
     from rv.note import Note
 
-    sub, olds = task
+    sub, olds = task[:2]
+    where = task[2] if len(task) > 2 else "free"
     word_attr = "ctl" if sub in ("controller", "effect") else "val"
     other_sub = {"controller": "effect", "effect": "controller", "val_xx": "val_yy", "val_yy": "val_xx"}[sub]
     hi = sub in ("controller", "val_xx")
     vs = []
     n = 0
     nt = Note()
+    mod_col = 9
+    if where != "free":
+        # the cell lives in a pattern (attached to a project or not); its module column names an existing module with
+        # three controllers, a module slot that is empty, or nothing -- the packing of the cell does not depend on that
+        import rv.api as rv
+
+        pat = rv.Pattern(tracks=1, lines=1)
+        if where != "pattern":
+            prj = rv.Project()
+            prj.new_module(rv.m.Amplifier)
+            prj.attach_pattern(pat)
+        nt = pat.data[0][0]
+        mod_col = {"pattern": 9, "attached-existing": 2, "attached-dangling": 9, "attached-none": 0}[where]
     for old in olds:
         for new in range(256):
             n += 1
-            nt.note, nt.vel, nt.module, nt.ctl, nt.val = 5, 7, 9, 0x1234, 0x4321
+            nt.note, nt.vel, nt.module, nt.ctl, nt.val = 5, 7, mod_col, 0x1234, 0x4321
             setattr(nt, word_attr, old)
             setattr(nt, sub, new)
             word = getattr(nt, word_attr)
@@ -194,17 +208,17 @@ def note_words(task):
                     vs.append(C.viol("note-subfield-setter", {"sub": sub},
                                      {"old_word": old, "new": new, "word": word, "expected": exp,
                                       "read_back": getattr(nt, sub), "other": getattr(nt, other_sub)},
-                                     {"note_word": [sub, old, new]}))
+                                     {"note_word": [sub, old, new, where]}))
                 continue
             other_word = nt.val if word_attr == "ctl" else nt.ctl
-            if (int(nt.note), nt.vel, nt.module) != (5, 7, 9) or other_word != (0x4321 if word_attr == "ctl" else 0x1234):
+            if (int(nt.note), nt.vel, nt.module) != (5, 7, mod_col) or other_word != (0x4321 if word_attr == "ctl" else 0x1234):
                 if len(vs) < 4:
                     vs.append(C.viol("note-subfield-setter-touches-other-field", {"sub": sub}, {"old": old, "new": new},
                                      {"note_word": [sub, old, new]}))
         # values wider than the 8-bit half: read back masked or clamped, the other half and the 16-bit width intact
         for new in (256, 0x1FF, 0x1234, 0xFFFF, -1):
             n += 1
-            nt.note, nt.vel, nt.module, nt.ctl, nt.val = 5, 7, 9, 0x1234, 0x4321
+            nt.note, nt.vel, nt.module, nt.ctl, nt.val = 5, 7, mod_col, 0x1234, 0x4321
             setattr(nt, word_attr, old)
             try:
                 setattr(nt, sub, new)
@@ -277,11 +291,19 @@ def vis_module_roundtrip():
 
     vs = []
     n = 0
-    for word in (0, 0x000C0101, 0x0FFF0724 & ~RESERVED_VIS, 0x0F120304, 0x08FF0021):
+    for word, before_save in itertools.product((0, 0x000C0101, 0x0FFF0724 & ~RESERVED_VIS, 0x0F120304, 0x08FF0021),
+                                               ("", "module-cloned", "module-saved-as-synth", "project-saved")):
         n += 1
         p = rv.Project()
         m = p.new_module(rv.m.Amplifier)
         m.visualization = word
+        # the module may have been cloned / written as a stand-alone synth (where the word is not stored) before
+        if before_save == "module-cloned":
+            m.clone()
+        elif before_save == "module-saved-as-synth":
+            rv.Synth(m).read()
+        elif before_save == "project-saved":
+            p.read()
         p2 = C.load_bytes(C.save(p))
         if int(p2.modules[1].visualization) != word:
             vs.append(C.viol("visualization-roundtrip", {}, {"word": hex(word), "loaded": hex(int(p2.modules[1].visualization))},
@@ -326,10 +348,14 @@ def sync_all():
 
     vs = []
     n = 0
-    for a0, b0 in itertools.product(range(8), range(8)):
+    # ... in files stamped with the current version and with versions on either side of 1.9.5.0 (old files get fix-ups when
+    # they are read; the two sub-fields are not among the things that differ)
+    for ver, a0, b0 in itertools.product((None, (1, 9, 4, 2), (1, 9, 5, 0)), range(8), range(8)):
         for which, newv in [("midi", v) for v in range(8)] + [("other", v) for v in range(8)]:
             n += 1
             p = rv.Project()
+            if ver:
+                p.sunvox_version = ver
             p.receive_sync_midi, p.receive_sync_other = a0, b0
             ea, eb = a0, b0
             if which == "midi":
@@ -342,7 +368,7 @@ def sync_all():
             if (int(l.receive_sync_midi), int(l.receive_sync_other)) != (ea, eb) or \
                     (d["receive_sync_midi"], d["receive_sync_other"]) != (ea, eb):
                 if len(vs) < 4:
-                    vs.append(C.viol("sync-flags-packing", {"set": which},
+                    vs.append(C.viol("sync-flags-packing", {"set": which, "version": "current" if not ver else ".".join(map(str, ver))},
                                      {"old": [a0, b0], "new": newv,
                                       "loaded": [int(l.receive_sync_midi), int(l.receive_sync_other)],
                                       "file": [d["receive_sync_midi"], d["receive_sync_other"]]},
@@ -362,8 +388,8 @@ def run_case(case):
     if "shape" in case:
         return pattern_shape(*case["shape"])[1]
     if "note_word" in case:
-        sub, old, _new = case["note_word"]
-        return note_words((sub, [old]))[1]
+        sub, old, _new = case["note_word"][:3]
+        return note_words((sub, [old]) + tuple(case["note_word"][3:4]))[1]
     if "vis" in case:
         old, f, v = case["vis"]
         lm, orient, size = old & 0x1F, (old >> 5) & 1, (old >> 16) & 0xFF
@@ -387,7 +413,7 @@ def _task(t):
         n, vs = pattern_shape(t[1], t[2])
         r["sample"] = {"shape": [t[1], t[2]]}
     elif kind == "words":
-        n, vs = note_words((t[1], t[2]))
+        n, vs = note_words(tuple(t[1:]))
         r["sample"] = {"note_word": [t[1], t[2][0], 255]}
     elif kind == "vis":
         n, vs = vis_words(t[1])
@@ -423,6 +449,9 @@ def run(ctx):
             for i in range(0, len(olds), 256):
                 tasks.append(("words", sub, olds[i:i + 256]))
         size_sets = [[0, 1, 0x80, 0xFF]]
+    for sub in SUBS:
+        for where in ("pattern", "attached-existing", "attached-dangling", "attached-none"):
+            tasks.append(("words", sub, [0x1234, 0x00FF, 0xFF00], where))
     for lm in range(5):
         for orient in (0, 1):
             for ss in size_sets:
